@@ -680,6 +680,46 @@ pub fn mutants(base: &TsDoc) -> Vec<(&'static str, String, TsDoc)> {
         m.defs.push(inp);
         m.defs.push(mk("r1", vec![], Ty::named("RI")));
         out.push(("dir.recursive", "through an input object field".into(), m));
+        // a directive OUTSIDE the cycle that refers into it, defined before / after / between the cycle's members,
+        // and a cycle reachable only through a chain of two such directives
+        for (place, tag) in [(0usize, "referrer defined before the cycle"), (1, "referrer defined after the cycle"), (2, "referrer between the members of the cycle")] {
+            for len in 1..=2usize {
+                let mut m = base.clone();
+                let cycle: Vec<TsDef> = if len == 1 { vec![mk("r1", vec![dir("r1", vec![])], Ty::named("Int"))] } else { vec![mk("r1", vec![dir("r2", vec![])], Ty::named("Int")), mk("r2", vec![dir("r1", vec![])], Ty::named("Int"))] };
+                let outer = mk("outer", vec![dir("r1", vec![])], Ty::named("Int"));
+                match place {
+                    0 => {
+                        m.defs.push(outer);
+                        m.defs.extend(cycle);
+                    }
+                    1 => {
+                        m.defs.extend(cycle);
+                        m.defs.push(outer);
+                    }
+                    _ => {
+                        if len == 1 {
+                            continue;
+                        }
+                        let mut c = cycle.into_iter();
+                        m.defs.push(c.next().unwrap());
+                        m.defs.push(outer);
+                        m.defs.extend(c);
+                    }
+                }
+                out.push(("dir.recursive", format!("length {len}, {tag}"), m));
+            }
+        }
+        let mut m = base.clone();
+        m.defs.push(mk("outer2", vec![dir("outer", vec![])], Ty::named("Int")));
+        m.defs.push(mk("outer", vec![dir("r1", vec![])], Ty::named("Int")));
+        m.defs.push(mk("r1", vec![dir("r1", vec![])], Ty::named("Int")));
+        out.push(("dir.recursive", "length 1, reached through a chain of two referrers defined before it".into(), m));
+        // two disjoint cycles: both must be reported (or at least the schema rejected)
+        let mut m = base.clone();
+        m.defs.push(mk("r1", vec![dir("r1", vec![])], Ty::named("Int")));
+        m.defs.push(mk("q1", vec![dir("q2", vec![])], Ty::named("Int")));
+        m.defs.push(mk("q2", vec![dir("q1", vec![])], Ty::named("Int")));
+        out.push(("dir.recursive", "two disjoint cycles".into(), m));
     }
     out
 }
